@@ -40,7 +40,7 @@ def gen_cases(seed, tier):
     rng = np.random.default_rng([seed, 104])
     q = tier == 'quick'
     fams = gen.FAMILIES + ['zero-core', 'huge', 'tiny', 'long', 'spread-huge',
-        'spread-tiny', 'gauge', 'extreme-bond', 'sparse-small']
+        'spread-tiny', 'gauge', 'extreme-bond', 'sparse-small', 'mixed-dtype']
     out = []
     for j in range(600 if q else 15000):
         out.append({'seed': int(rng.integers(1 << 62)),
@@ -198,8 +198,25 @@ def make_orth(orig):
             k = len(Y0) - 1 if a['k'] is None else a['k']
             judge_orth(ctx, Y0, int(k), bool(a['use_stab']), res, _rng,
                 nested=_state['nested'])
+            res = _handed_out(res)
         return res
     return orthogonalize
+
+
+def _handed_out(res):
+    """The caller gets a deep copy; the arrays the library returned are then
+    edited in place (as a caller may do with its result).  A correct library
+    never sees them again; one that keeps a reference (a cached identity, a
+    shared buffer) is corrupted for LATER calls, which are judged as usual."""
+    Z = res[0] if isinstance(res, tuple) else res
+    if not isinstance(Z, list):
+        return res
+    out = [np.array(G, copy=True) for G in Z]
+    for G in Z:
+        if isinstance(G, np.ndarray) and G.flags.writeable and G.size:
+            np.multiply(G, 1.75, out=G)
+            G.flat[0] += 1.
+    return (out, res[1]) if isinstance(res, tuple) else out
 
 
 _state = {'nested': False}
@@ -255,6 +272,8 @@ def make_step(left):
             if ctx is not None and _depth['n'] == 0:
                 judge_step(ctx, left, Y0, Yarg, a['i'], bool(a['inplace']), Z,
                     _rng)
+                if not a['inplace'] and Z is not Yarg:
+                    Z = _handed_out(Z)
             return Z
         return step
     return make
@@ -286,6 +305,19 @@ def make_input(rng, fam):
         for G in Y:
             G *= 2.0 ** (sgn * int(rng.integers(90, 131)))
         return Y, {'family': fam, 'n': n, 'r': r}
+    if fam == 'mixed-dtype':
+        # one float32 core (ordinary values) between float64 cores whose
+        # scales (1e+-60) are outside the float32 range and cancel
+        d = int(rng.integers(3, 7))
+        n = [int(rng.integers(2, 5)) for _ in range(d)]
+        r = gen.rand_ranks(rng, d, 3)
+        Y = gen.cores(rng, n, r, 'normal')
+        j = int(rng.integers(1, d - 1))
+        Y[j] = Y[j].astype(np.float32)
+        sc = 10.0 ** float(rng.choice([-60, 60, 45, -45]))
+        Y[j - 1] = Y[j - 1] * sc
+        Y[j + 1] = Y[j + 1] / sc
+        return Y, {'family': fam, 'n': n, 'r': r, 'j32': j}
     if fam == 'sparse-small':
         # sparse cores (exact zeros: zero slices, block structure of a TT sum,
         # one-hot entries) whose non-zero entries are all well below 0.5
@@ -427,6 +459,19 @@ def run_case(case, ctx):
         return run_gauge(case, ctx)
     rng = np.random.default_rng(case['seed'])
     Y, info = make_input(rng, case['family'])
+    if case['family'] == 'mixed-dtype':
+        # the left-to-right sweep has to carry the huge / tiny factor R across
+        # the float32 core in double precision (pivots right of it; a right-
+        # to-left sweep would factorise the float32 core itself in float32,
+        # which is not judged)
+        j = info['j32']
+        for k in range(j + 1, len(Y)):
+            for stab in (False, True):
+                teneva.orthogonalize(Y, k, stab)
+        teneva.orthogonalize_left([G.copy() for G in Y], j - 1)
+        teneva.orthogonalize_left([G.copy() for G in Y], j - 1, True)
+        ctx.event('float32-core-between-unbalanced-float64-cores')
+        return
     d = len(Y)
     pivots = list(range(d)) if d <= 12 else \
         sorted({0, 1, d // 2, d - 2, d - 1} | set(int(x)
